@@ -186,7 +186,7 @@ def run(tier, seed):
             return base_is, symf
 
         # components of the header reader that have rules of their own (R3-R5, R8, C12): their stores are not part of a level's field table
-        COMPONENTS = {"extend_raw_data", "decode_extended_headers", "read_l1_extended_headers", "read_next_ext_header", "process_level0_path",
+        COMPONENTS = {"extend_raw_data", "decode_extended_headers", "read_l1_extended_headers", "process_level0_path",
                       "process_level0_extended_area", "process_level0_unix_area", "process_level0_os9_area", "lha_ext_header_decode", "decode_ftime",
                       "check_l0_checksum", "decode_level0_header"}
 
@@ -380,14 +380,16 @@ def run(tier, seed):
         if r1:
             M = Matcher(r1)
             sts = stores_to_field(mod, HDR, "compressed_length", [r1])
-            rne = mod.fn("read_next_ext_header")
-            ok = len(sts) == 1 and M.match(("bin", "sub", ("load", ("field", HDR, "compressed_length", ANY)), ("load", ("bind", "slot"))), sts[0].ops[0], {}) is not None
+            F5 = ctx.facts(r1)
+            NEXT = ("call", "lha_decode_uint16", [("gep", ("load", ("field", HDR, "raw_data", ANY)), [("bin", "sub", ("load", ("field", HDR, "raw_data_len", ANY)), 2)])])
+            e = M.match(("bin", "sub", ("load", ("field", HDR, "compressed_length", ANY)), ("bind", "len")), sts[0].ops[0], {}) if len(sts) == 1 else None
+            ok = e is not None
             rep.check(rid, ok, "compressed_length -= ext_header_len", sts[0].where() if sts else r1.file, None, function=r1.cname, obj="sub")
-            if rne:
-                Mn = Matcher(rne)
-                st2 = [s for s in rne.insts() if s.op == "store" and Mn.strip(s.ops[1], ("bitcast",)) == ("v", rne.params[3].id)]
-                okn = len(st2) >= 1 and all(Mn.match(("call", "lha_decode_uint16", [("gep", ("load", ("field", HDR, "raw_data", ANY)), [("bin", "sub", ("load", ("field", HDR, "raw_data_len", ANY)), 2)])]), s.ops[0], {}) is not None for s in st2)
-                rep.check(rid, okn, "next extended header size = u16 @ raw_len - 2", rne.file, None, function=rne.cname, obj="next-size")
+            if ok:
+                srcs = [x for x, _ in F5.sources(e["len"])]
+                okn = bool(srcs) and all(M.match(NEXT, x, {}) is not None for x in srcs)
+                rep.check(rid, okn, "next extended header size = u16 @ raw_len - 2", r1.file, "sources: %s" % [describe(r1, x) for x in srcs] if not okn else None,
+                          function=r1.cname, obj="next-size")
 
         # ---- R6 OS-9 permissions ---------------------------------------------------------------------------------------------
         rid = rep.rule("R6", "OS-9 -> Unix permission bits: in 0,1,2 -> out 8,7,6; in 3,4,5 -> out {5,2},{4,1},{3,0}; in 7 -> out 14; nothing else", 1)
